@@ -11,6 +11,7 @@ type rndPicker struct{ r *rand.Rand }
 func (p *rndPicker) Pick(en []*G, cur *G) *G { return en[p.r.Intn(len(en))] }
 func (p *rndPicker) AdvanceEarly() bool      { return p.r.Intn(10) == 0 }
 func (p *rndPicker) Spawned(g *G)            {}
+func (p *rndPicker) ChooseBranch(n int) int  { return p.r.Intn(n) }
 
 func runToy(seed int64) (Result, int) {
 	total := 0
@@ -38,9 +39,9 @@ func runToy(seed int64) (Result, int) {
 					close(done)
 				}
 				if i == 2 {
-					WaitSelect(done)
+					sel := WaitSelect(done)
 					select {
-					case <-done:
+					case <-Only(sel, 0, (<-chan struct{})(done)):
 					}
 				}
 				if i == 3 {
